@@ -116,6 +116,7 @@ def run(ctx):
         ctx.violation("%d property-oracle mismatches were not captured (more than the pipeline keeps); rerun the failing jobs by hand" % hidden,
                       {"mismatches_spec": r["mismatches_spec"], "captured": len(spec_mm)}, no_input=True)
     reported = set()
+    n_viol_before = len(ctx.violations)
     for lbl, cmd, line in spec_mm:
         case_no = int(line.split("case=")[1].split()[0])
         hist = vlib.extract_case(cmd.split(), driver, case_no)
@@ -128,13 +129,46 @@ def run(ctx):
                        "how_to_rerun": cmd + " | " + driver}, key=key)
         if len(ctx.violations) >= 5:
             break
-    if model_mm and not spec_mm:
-        lbl, cmd, line = model_mm[0]
-        case_no = int(line.split("case=")[1].split()[0])
-        hist = vlib.extract_case(cmd.split(), driver, case_no)
-        ctx.violation("correspondence model<->implementation broken (concrete model disagrees, property oracle holds): " + line,
-                      {"obligation": "G3 correspondence of model/Alloc.v with the implementation", "history": hist,
-                       "harness_cmd": cmd, "mismatches_model": r["mismatches_model"]}, no_input=True)
+    # (known findings do not count: only a reported property violation makes the search unnecessary)
+    if model_mm and len(ctx.violations) == n_viol_before:
+        # SEARCH (DESIGN 3.6): the tie broke but the regular histories did not violate the property
+        # oracle.  Before giving up, re-run the harness in drain mode over the layouts of the
+        # diverging cases: allocate every bucket with its full size, check bounds / overlap against
+        # the real block, canary every byte of every bucket, re-read after each deallocate/allocate,
+        # check guard zones around the block.
+        found = False
+        tried = []
+        seen_heads = set()
+        for lbl, cmd, line in model_mm:
+            case_no = int(line.split("case=")[1].split()[0])
+            hist = vlib.extract_case(cmd.split(), driver, case_no)
+            head = hist[0].split() if hist else []
+            if len(head) < 3 or head[1] not in ("pool", "fixed", "calpool") or hist[0] in seen_heads:
+                continue
+            seen_heads.add(hist[0])
+            dcmd = " ".join([exe, "drn", head[1], "1", "0", "1", str(ctx.seed)] + head[2:])
+            tried.append(dcmd)
+            rc, out = vlib.sh(dcmd + " 2>/dev/null | " + driver, timeout=300)
+            sm = [l for l in out.split("\n") if l.startswith("MISMATCH") and "kind=spec" in l]
+            if sm:
+                rc2, dh = vlib.sh(dcmd + " 2>/dev/null", timeout=300)
+                ctx.violation("allocator property violated on the real implementation (found by the drain search after the "
+                              "model correspondence broke: %s): %s" % (line, sm[0]),
+                              {"history": dh.split("\n")[:400], "harness_cmd": dcmd, "mismatch": sm[0], "all_spec_mismatches": sm[:20],
+                               "first_model_mismatch": line, "how_to_rerun": dcmd + " | " + driver},
+                              key=classify(hist, sm[0]))
+                found = True
+                break
+            if len(tried) >= 8:
+                break
+        if not found:
+            lbl, cmd, line = model_mm[0]
+            case_no = int(line.split("case=")[1].split()[0])
+            hist = vlib.extract_case(cmd.split(), driver, case_no)
+            ctx.violation("correspondence model<->implementation broken (concrete model disagrees, property oracle holds): " + line,
+                          {"obligation": "G3 correspondence of model/Alloc.v with the implementation", "history": hist,
+                           "harness_cmd": cmd, "mismatches_model": r["mismatches_model"],
+                           "searched": "drain search over the diverging layouts found no property violation", "drain_cmds": tried}, no_input=True)
     if not proof_ok:
         if not ctx.violations:
             ctx.violation("proof obligation no longer checks: %s" % ctx.broken,
